@@ -31,6 +31,10 @@ where
 
 pub struct Scope<'a> {
     dtors: RefCell<Option<DtorChain<'a>>>,
+    // true while the scope is left normally: the first child panic is re-raised then.
+    // `thread::panicking()` can't tell, a coroutine may unwind on another thread
+    // than the one its panic started on
+    propagate: Rc<std::cell::Cell<bool>>,
 }
 
 struct DtorChain<'a> {
@@ -44,7 +48,8 @@ enum JoinState {
 }
 
 impl JoinState {
-    fn join(&mut self) {
+    // return the panic of the child if any, the caller decides if it is re-raised
+    fn join(&mut self) -> thread::Result<()> {
         let mut state = JoinState::Joined;
         mem::swap(self, &mut state);
         if let JoinState::Running(handle) = state {
@@ -66,11 +71,9 @@ impl JoinState {
                 c.enable_cancel();
             }
 
-            // TODO: when panic happened, the logic need to refine
-            if !thread::panicking() {
-                res.unwrap_or_else(|e| panic::resume_unwind(e));
-            }
+            return res;
         }
+        Ok(())
     }
 }
 
@@ -91,8 +94,10 @@ where
 {
     let mut scope = Scope {
         dtors: RefCell::new(None),
+        propagate: Rc::new(std::cell::Cell::new(false)),
     };
     let ret = f(&scope);
+    scope.propagate.set(true);
     scope.drop_all();
     ret
 }
@@ -174,10 +179,17 @@ impl<'a> Scope<'a> {
         let co = join_handle.coroutine().clone();
         let deferred_handle = Rc::new(RefCell::new(JoinState::Running(join_handle)));
         let my_handle = deferred_handle.clone();
+        let propagate = self.propagate.clone();
 
         self.defer(move || {
-            let mut state = deferred_handle.borrow_mut();
-            state.join();
+            let res = deferred_handle.borrow_mut().join();
+            if let Err(e) = res {
+                // only the first panic is re-raised, and only when the scope is left
+                // normally: the other children are joined while that one unwinds
+                if propagate.replace(false) {
+                    panic::resume_unwind(e);
+                }
+            }
         });
 
         ScopedJoinHandle {
@@ -214,7 +226,8 @@ impl<'a> Scope<'a> {
 impl<T> ScopedJoinHandle<T> {
     /// Join the scoped coroutine, returning the result it produced.
     pub fn join(self) -> T {
-        self.inner.borrow_mut().join();
+        let res = self.inner.borrow_mut().join();
+        res.unwrap_or_else(|e| panic::resume_unwind(e));
         self.packet.take().unwrap()
     }
 
